@@ -110,6 +110,26 @@ def _forward_sinks(fd, nd) -> set:
                 c = st.value
                 if any(tainted_in(a_, st) for a_ in list(c.args) + [k.value for k in c.keywords]):
                     recv = dotted(c.func.value) or ""
+                    if isinstance(c.func.value, ast.Name):
+                        # `tmp = detector.x` directly in front of `tmp.update(..)`: the receiver IS detector.x
+                        from sa.index import parent as _par
+
+                        blk = None
+                        par_ = _par(st)
+                        for fld_ in ("body", "orelse", "finalbody"):
+                            lst_ = getattr(par_, fld_, None)
+                            if isinstance(lst_, list) and any(x is st for x in lst_):
+                                blk = lst_
+                        if blk is not None:
+                            k_ = next(i_ for i_, x in enumerate(blk) if x is st)
+                            for prev in reversed(blk[:k_]):
+                                if isinstance(prev, (ast.Assign, ast.AnnAssign)) and getattr(prev, "value", None) is not None:
+                                    tg_ = prev.targets if isinstance(prev, ast.Assign) else [prev.target]
+                                    if len(tg_) == 1 and isinstance(tg_[0], ast.Name) and tg_[0].id == c.func.value.id:
+                                        recv = dotted(prev.value) or recv
+                                        break
+                                if any(isinstance(n_, ast.Name) and n_.id == c.func.value.id and isinstance(n_.ctx, ast.Store) for n_ in ast.walk(prev)):
+                                    break
                     if recv.startswith("detector."):
                         sinks.add(recv.split(".")[1].lstrip("_"))
                     elif isinstance(c.func.value, ast.Name) and c.func.attr in ("append", "extend", "update", "add", "setdefault", "insert"):
@@ -176,7 +196,9 @@ def r1_detector_key_parity(ctx):
             oks = src in (f"self.{k}.to_dict()", f"self._{k}.to_dict()")
             ctx.check(oks, cq + f"#write:{k}", f"{k} <- self.{k}.to_dict()" if oks else f"'{k}' is written from {src}", where=td, node=v)
         for k, v in wdata.items():
-            names = {dotted(a) for a in ast.walk(v) if isinstance(a, ast.Attribute) and dotted(a)}
+            # everything the written value may derive from (a named / per-branch intermediate included)
+            vs_ = [d_ for _s, d_ in local_defs(td, v.id) if d_ is not None] if isinstance(v, ast.Name) else [v]
+            names = {dotted(a) for e_ in (vs_ or [v]) for a in ast.walk(expand(td, e_)) if isinstance(a, ast.Attribute) and dotted(a)}
             oks = any(x in (f"self.{k}", f"self._{k}") or x.startswith(f"self.{k}.") or x.startswith(f"self._{k}.") for x in names)
             others = [b for b in want if b != k and any(x in (f"self.{b}", f"self._{b}") or x.startswith(f"self._{b}.") or x.startswith(f"self.{b}.") for x in names)]
             ctx.check(oks and not others, cq + f"#write:{k}", f"'{k}' written from the {k} container" if oks and not others else f"'{k}' is written from {sorted(names)}", where=td, node=v)
